@@ -42,6 +42,10 @@ def known_match(known, prop, ob):
             continue
         if k.get("unit") and k["unit"] != ob.unit:
             continue
+        if k.get("descriptions") is not None:
+            if ob.desc in k["descriptions"]:
+                return k
+            continue
         if re.search(k["obligation_re"], ob.pid + " " + ob.desc):
             return k
     return None
@@ -158,12 +162,14 @@ def check(prop, tier, props_meta):
               "loops": ("loop contracts: " + ", ".join(sorted({t["function"] for t in u.loops}))) if u.loops else "",
               "unwinding": ("complete unwinding %s (%s)" % (u.unwindset, u.unwind_reason)) if u.unwindset else "",
               "replaced_by_contract": u.replace + u.stubbed_contracts, "nondet_stubs": r.stubs_generated, "note": u.note}
+        kf = sum(1 for o in r.failed if known_match(known, prop, o))
+        ev["open_known_finding_obligations"] = kf
         if u.kind == "bounded":
             ev["bound"] = u.bound
             bounded_ev.append(ev)
         else:
             unit_ev.append(ev)
-            nobl += len(r.obligations)
+            nobl += len(r.obligations) - kf
             ndis += ev["discharged"]
         named = [o for o in r.obligations if re.match(r"C\d\d", o.desc)]
         for o in (named or r.obligations)[:3]:
@@ -176,7 +182,7 @@ def check(prop, tier, props_meta):
             for o in r.failed:
                 k = known_match(known, prop, o)
                 if k:
-                    msg = "KNOWN-FINDING: property=%s %s [%s %s]" % (prop, k["what"], u.name, o.pid)
+                    msg = "KNOWN-FINDING: property=%s %s [unit %s]" % (prop, k["what"], u.name)
                     if msg not in known_lines:
                         known_lines.append(msg)
                 else:
